@@ -97,6 +97,8 @@ pub enum Act {
     Fail(Kind),
     /// fail now and on every later call
     FailForever(Kind),
+    /// the caller's stream panics (the caller catches the panic and goes on using the library)
+    Panic,
     /// the caller's stream itself uses the library before it transfers everything asked for (a framing
     /// reader that validates a serialized key, a writer that prefixes a serialized sequence number):
     /// a nested round trip of an Fr, a G1Affine and an Fq12 on plain vectors, which must behave as usual
@@ -112,6 +114,7 @@ impl Act {
             Act::Fail(k) => J::s(&format!("fail:{}", k.name())),
             Act::FailForever(k) => J::s(&format!("failforever:{}", k.name())),
             Act::Reenter => J::s("reenter"),
+            Act::Panic => J::s("panic"),
         }
     }
     pub fn from_json(j: &J) -> Result<Act, String> {
@@ -124,6 +127,8 @@ impl Act {
             Ok(Act::Eintr)
         } else if s == "reenter" {
             Ok(Act::Reenter)
+        } else if s == "panic" {
+            Ok(Act::Panic)
         } else if let Some(n) = s.strip_prefix("short:") {
             Ok(Act::Short(n.parse().map_err(|_| "short:n")?))
         } else if let Some(k) = s.strip_prefix("failforever:") {
@@ -143,9 +148,13 @@ impl Act {
             Act::Fail(_) => "fail_once",
             Act::FailForever(_) => "fail_forever",
             Act::Reenter => "reenter",
+            Act::Panic => "stream_panic",
         }
     }
 }
+
+/// payload of a panic raised by a simulated stream (never by the library)
+pub struct StreamPanic;
 
 /// the nested library use of `Act::Reenter`; returns a description if anything but the usual happens
 /// (a panic propagates into the outer library call, whose caller reports it)
@@ -232,6 +241,11 @@ impl Write for SimWriter {
                 self.op.progress_calls += 1;
                 self.op.bytes += buf.len();
                 Ok(buf.len())
+            }
+            Act::Panic => {
+                self.op.fails += 1;
+                self.op.kinds.push("stream_panic");
+                std::panic::panic_any(StreamPanic)
             }
             Act::Reenter => {
                 self.op.kinds.push("reenter");
@@ -337,6 +351,11 @@ impl<'a> Read for SimReader<'a> {
             Act::Full | Act::Zero => {
                 let n = blen.min(remaining);
                 Ok(deliver(self, n))
+            }
+            Act::Panic => {
+                self.op.fails += 1;
+                self.op.kinds.push("stream_panic");
+                std::panic::panic_any(StreamPanic)
             }
             Act::Reenter => {
                 self.op.kinds.push("reenter");
@@ -670,6 +689,8 @@ pub fn execute(plan: &IoPlan, want_log: bool) -> RunResult {
             observed: obs,
         };
         let res = match res {
+            // the caller's writer panicked, not the library: for the caller this call failed
+            Err(p) if p.is::<StreamPanic>() => Err(io::Error::new(ErrorKind::Other, "the caller's stream panicked")),
             Err(_) => {
                 dg.str("panic");
                 done!(Some(mk("serialize/1 no-panic", "no panic".into(), "serialize panicked".into())));
@@ -791,6 +812,7 @@ pub fn execute(plan: &IoPlan, want_log: bool) -> RunResult {
             observed: obs,
         };
         let res = match res {
+            Err(p) if p.is::<StreamPanic>() => Err(io::Error::new(ErrorKind::Other, "the caller's stream panicked")),
             Err(_) => {
                 dg.str("panic");
                 done!(Some(mk(
